@@ -357,6 +357,10 @@ def _add(module: Module, val: ModuleAttr) -> ModuleAttr:
         ):
             if ctr.get(val.name, None) is prior:
                 ctr.pop(val.name)
+        # The prior holder is no longer an attribute of this Module.
+        # Anything still connected to it depends on an orphan, which elaboration will point out.
+        if getattr(prior, "_parent_module", None) is module:
+            prior._parent_module = None
 
     # Add it to the module namespace, and the type-specific container
     type_ctr[val.name] = val
